@@ -172,6 +172,7 @@ c = contract("pdfminer.pdfinterp:PDFResourceManager.get_font", props=["C12"])
 c.param("self", _Fonts()).param("objid", T.OneOf(None, 0, 7)).param("spec", T.Const("spec"))
 c.ghost("warm", T.OneOf(False, True))
 c.skip_cross = True
+c.inline = True
 c.mod("self._cached_fonts")
 
 
@@ -436,6 +437,18 @@ def doc_pool():
            "1 begincidrange <2121> <2122> 900 endcidrange endcmap CMapName currentdict /CMap defineresource pop end end")
     t0e = dict(t0, Encoding=Ref(7))
     pool["type0-embedded-encoding-stream"] = three_pages(t0e, {6: cid, 7: Stream({"Type": Name("CMap"), "CMapName": Name("Mine")}, emb.encode())}, cidtexts)
+    # two composite fonts that share one descendant font object but differ in ToUnicode: the parent's entries must not stick to the shared object
+    tou = (b"/CIDInit /ProcSet findresource begin 12 dict begin begincmap 1 begincodespacerange <0000> <FFFF> endcodespacerange 3 beginbfchar <0001> <0048> <0002> <0069> "
+           b"<0003> <0021> endbfchar endcmap CMapName currentdict /CMap defineresource pop end end")
+    cid2 = {"Type": Name("Font"), "Subtype": Name("CIDFontType2"), "BaseFont": Name("Shared"), "CIDSystemInfo": {"Registry": "Adobe", "Ordering": "Identity", "Supplement": 0},
+            "FontDescriptor": Ref(8), "DW": 500}
+    objs = {1: {"Type": Name("Catalog"), "Pages": Ref(2)}, 2: {"Type": Name("Pages"), "Kids": [Ref(3), Ref(13), Ref(23)], "Count": 3}, 8: FD, 6: cid2, 7: Stream({}, tou),
+            5: {"Type": Name("Font"), "Subtype": Name("Type0"), "BaseFont": Name("Shared"), "Encoding": Name("Identity-H"), "DescendantFonts": [Ref(6)], "ToUnicode": Ref(7)},
+            9: {"Type": Name("Font"), "Subtype": Name("Type0"), "BaseFont": Name("Shared"), "Encoding": Name("Identity-H"), "DescendantFonts": [Ref(6)]}}
+    for k, (base, fnt) in enumerate(((3, "F1"), (13, "F2"), (23, "F1"))):
+        objs[base] = {"Type": Name("Page"), "Parent": Ref(2), "MediaBox": [0, 0, 300, 300], "Contents": Ref(base + 1), "Resources": {"Font": {"F1": Ref(5), "F2": Ref(9)}}}
+        objs[base + 1] = Stream({}, ("BT /%s 10 Tf 20 %d Td <000100020003> Tj ET" % (fnt, 200 - 30 * k)).encode())
+    pool["type0-shared-descendant"] = build(objs, 1)
     # state that must not leak from page to page: an unbalanced q on page 1, Q first on page 2; text state set on page 1 only
     pool["unbalanced-q-across-pages"] = three_pages(t1(Name("WinAnsiEncoding")), None, ("(ABC) Tj", "(BCA) Tj", "(CAB) Tj"),
                                                     ("2 0 0 2 7 7 cm q 3 0 0 3 0 0 cm 5 Tc 50 Tz", "Q", "Q Q"))
@@ -480,8 +493,8 @@ print(json.dumps(extract_sigs(pool[name])))
 
 
 @bounded("call-histories-interleavings-caching-and-page-subsets", props=["C12"],
-         bound="pool of 8 three-page documents sharing object numbers, font name and encodings (WinAnsi with/without Differences, unknown base encoding with "
-               "Differences, implicit Standard, MacRoman with Differences, Type0 with predefined CMap H, Type0 with an embedded encoding CMap (pdfminer looks such a CMap up by name only: nothing decodes, but the lookup path runs), unbalanced q / text "
+         bound="pool of 9 three-page documents sharing object numbers, font name and encodings (WinAnsi with/without Differences, unknown base encoding with "
+               "Differences, implicit Standard, MacRoman with Differences, Type0 with predefined CMap H, two Type0 fonts sharing one descendant, Type0 with an embedded encoding CMap (pdfminer looks such a CMap up by name only: nothing decodes, but the lookup path runs), unbalanced q / text "
                "state across pages). Reference = each document extracted alone in a fresh interpreter process. quick: 60 random call histories of length 2..6, all "
                "ordered pairs interleaved page by page, caching off, every single page and page pair extracted separately, the same document three times; thorough: 6000 histories")
 def _(tier, seed):
@@ -554,3 +567,94 @@ def _(tier, seed):
         if t1_ != t2_ or x[0] != x[1]:
             failures.append(dict(scenario="string-outputs", document=nm, text_equal=t1_ == t2_, xml_equal=x[0] == x[1]))
     return dict(evaluations=evals, distinct=len(kinds), failures=failures[:3])
+
+
+# -- parsed document objects (what the object cache holds) are not written by the code that reads them -------------------------------------------------
+DOC_SOURCES = ("dict_value", "resolve1", "list_value", "stream_value", "resolve_all")
+
+
+def stores_into_parsed_objects():
+    """statements that store into (or call a mutator on) a value obtained from dict_value / resolve1 / list_value / stream_value / resolve_all - directly or
+    through a local name - without a copy in between.  Such a store edits the object the document's cache hands to every later reader."""
+    out = []
+    for fn, path in _package_files():
+        tree = ast.parse(open(path).read())
+        for f in ast.walk(tree):
+            if not isinstance(f, ast.FunctionDef):
+                continue
+            aliases = set()
+
+            def from_doc(e):
+                if isinstance(e, ast.Call):
+                    g = e.func
+                    nm = g.id if isinstance(g, ast.Name) else g.attr if isinstance(g, ast.Attribute) else None
+                    if nm in DOC_SOURCES:
+                        return True
+                    if nm in FRESH_CALLS:
+                        return False
+                    if nm in ("get", "__getitem__") and isinstance(g, ast.Attribute):
+                        return from_doc(g.value)
+                    return False
+                if isinstance(e, ast.Subscript):
+                    return from_doc(e.value)
+                if isinstance(e, ast.Name):
+                    return e.id in aliases
+                if isinstance(e, ast.IfExp):
+                    return from_doc(e.body) or from_doc(e.orelse)
+                if isinstance(e, ast.BoolOp):
+                    return any(from_doc(v) for v in e.values)
+                return False
+
+            def scan(stmts):
+                for s in stmts:
+                    for t in (s.targets if isinstance(s, (ast.Assign, ast.Delete)) else [s.target] if isinstance(s, (ast.AugAssign, ast.AnnAssign)) else []):
+                        if isinstance(t, ast.Subscript) and from_doc(t.value):
+                            out.append((fn, f.name, s.lineno, ast.unparse(t)[:70]))
+                    if not isinstance(s, (ast.If, ast.For, ast.While, ast.Try, ast.With)):
+                        for c_ in ast.walk(s):
+                            if isinstance(c_, ast.Call) and isinstance(c_.func, ast.Attribute) and c_.func.attr in MUTATORS and c_.func.attr != "write" and from_doc(c_.func.value):
+                                out.append((fn, f.name, c_.lineno, ast.unparse(c_)[:70]))
+                    if isinstance(s, ast.Assign) and len(s.targets) == 1 and isinstance(s.targets[0], ast.Name):
+                        (aliases.add if from_doc(s.value) else aliases.discard)(s.targets[0].id)
+                    for blk in ("body", "orelse", "finalbody"):
+                        sub = getattr(s, blk, None)
+                        if isinstance(sub, list) and sub and isinstance(sub[0], ast.stmt) and not isinstance(s, (ast.FunctionDef, ast.ClassDef)):
+                            scan(sub)
+                    for h in getattr(s, "handlers", []) or []:
+                        scan(h.body)
+            scan(f.body)
+    return out
+
+
+@exhaustive("inventory-of-stores-into-parsed-objects", props=["C12"],
+            note="AST scan of pdfminer/*.py: no statement stores into a value obtained from dict_value/resolve1/list_value/stream_value/resolve_all (directly or through a local "
+                 "name) without a copy in between; resolve_all and decipher_all, which edit their own argument by design, are under contract above")
+def _():
+    hits = stores_into_parsed_objects()
+    return dict(cases=sum(1 for _ in _package_files()), failures=[dict(file=f, function=fu, line=ln, store=tx) for f, fu, ln, tx in hits][:5])
+
+
+# get_font on a composite font: the descendant font dictionary taken from the document is left as it was
+_cid = stub("pdfminer.pdffont:PDFCIDFont.__init__", ["self", "rsrcmgr", "spec", "strict"])
+_cid.defaults["strict"] = False
+c = contract("pdfminer.pdfinterp:PDFResourceManager.get_font#type0", props=["C12", "C07"])
+c.modname, c.qualname = "pdfminer.pdfinterp", "PDFResourceManager.get_font"
+c.param("self", _Fonts()).param("objid", T.OneOf(None, 7)).param("spec", T.Const("spec"))
+c.skip_cross = True
+c.mod("self._cached_fonts")
+
+
+def _wire_type0(bound, ghosts):
+    LIT = ps.LIT
+    desc = {"Type": LIT("Font"), "Subtype": LIT("CIDFontType2"), "BaseFont": LIT("Comp")}
+    bound["spec"] = {"Type": LIT("Font"), "Subtype": LIT("Type0"), "DescendantFonts": [desc], "Encoding": LIT("Identity-H"), "ToUnicode": "tounicode-stream"}
+    ghosts["_desc"] = desc
+
+
+c.wire = _wire_type0
+c.stubs = {"pdfminer.pdffont:PDFCIDFont.__init__": _cid}
+c.returns(T.Opaque("font"))
+c.ens("descendant-dictionary-of-the-document-untouched-the-font-sees-a-private-copy-with-the-parent's-encoding", lambda spec, _desc, trace: And(
+    sorted(_desc) == ["BaseFont", "Subtype", "Type"], spec["DescendantFonts"][0] is _desc,
+    len(trace) == 1, trace[0][1]["spec"] is not _desc, sorted(trace[0][1]["spec"]) == ["BaseFont", "Encoding", "Subtype", "ToUnicode", "Type"],
+    trace[0][1]["spec"]["ToUnicode"] == "tounicode-stream"))
